@@ -4,8 +4,12 @@
 ROOT="$(cd "$(dirname "$0")/.." && pwd)"
 OUT=$ROOT/dev/mutant-results.tsv
 PROPS="${@:-$(ls "$ROOT/dev/mutants")}"
+# SHARD=i/n runs every n-th mutant starting with the i-th
+SI=${SHARD%/*}; SN=${SHARD#*/}; K=0
 for P in $PROPS; do
   for M in $ROOT/dev/mutants/$P/*.diff; do
+    K=$((K+1))
+    if [ -n "$SHARD" ] && [ $((K % SN)) -ne $((SI % SN)) ]; then continue; fi
     N=$(basename $M .diff)
     grep -q "^$P	$N	" $OUT 2>/dev/null && continue
     LOG=$(timeout 1500 sh $ROOT/dev/mutant.sh $P $M 2>&1)
